@@ -84,6 +84,12 @@ impl Check for NftVotes {
         }
         (cfg, steps)
     }
+    fn dup_ok(&self, _s: &Step) -> bool {
+        true
+    }
+    fn reorder_ok(&self) -> bool {
+        true
+    }
     fn execute(&self, cfg: &Cfg, steps: &[Step], st: &mut Stats) -> Result<(), Violation> {
         let w = W::new(cfg.actors, cfg.start_ledger, 16);
         let e = &w.e;
